@@ -20,6 +20,8 @@ import glob
 import itertools
 import os
 import re as pyre
+import subprocess
+import multiprocessing
 
 import vlib
 from vlib import cz, clist
@@ -565,6 +567,147 @@ def real_pattern_strings(sr):
     return out, sorted(names)
 
 
+_W = {}
+_PLANS = {}
+
+
+def plan_of(d, syms):
+    key = (d, tuple(syms))
+    if key not in _PLANS:
+        _PLANS[key] = chain_plan(list(syms)) if d == 0 else full_plan(list(syms), d)
+    return _PLANS[key]
+
+
+def _init_worker(ids):
+    _W["sr"] = impl()
+    _W["orc"] = Oracle()
+    _W["ids"] = ids
+
+
+TOK_INT = {"wildcard": 0, "end_of_sequence": -1, "bar": -5}
+
+
+def tok_ints(names, toks):
+    out = []
+    for k, v in toks:
+        if k == "string":
+            out.append(names(v))
+        elif k == "modifier":
+            out.append({"?": -2, "*": -3, "+": -4}[v])
+        elif k == "parenthesis":
+            out.append(-6 if v == "(" else -7)
+        else:
+            out.append(TOK_INT[k])
+    return out
+
+
+def _work(job):
+    """Run one (pattern, plan) on the real Matcher and on the language oracle."""
+    kind, pat, r, d, syms = job
+    sr, orc, ids = _W["sr"], _W["orc"], _W["ids"]
+    names = ids.__getitem__
+    toks = my_tokens(pat)
+    if toks is None or real_parse(sr, pat)[0] != 0:
+        return None
+    plan = plan_of(d, syms)
+    obs = observe(sr, pat, plan)
+    hyp = r is not None and eos_ok(desugar(r))
+    pred = oracle_predict(orc, r, plan) if hyp else None
+    fails = oracle_check(orc, r, obs) if hyp else []
+    flat = []
+
+    def walk(o):
+        for _s, ok, k in o[2]:
+            flat.append(ok)
+            walk(k)
+    walk(obs)
+    if len(orc.dm) > 400000:
+        _W["orc"] = Oracle()
+    return {"kind": kind, "pat": pat, "toks_coq": coq_tokens(names, toks), "toks_int": tok_ints(names, toks),
+            "d": d, "syms": [names(x) for x in syms], "codes": obs_codes(names, obs), "pred": pred or [],
+            "nodes": len(flat) + 1, "nontrivial": any(flat) and not all(flat), "hyp": hyp,
+            "start": (obs[0], obs[1]), "fails": fails[:8]}
+
+
+class OcamlChecker(object):
+    """Optional second evaluator of the model: Corr.C18.chk_case extracted to OCaml
+    (ExtrOcamlBasic only).  Used for the large enumerations of the thorough tier; the
+    cases that also go through coqc/vm_compute must give the same answer."""
+    MAIN = r"""
+open C18model
+let rec nat_of_int n = if n <= 0 then O else S (nat_of_int (n-1))
+let rec pos_of_int n = if n = 1 then XH else if n land 1 = 0 then XO (pos_of_int (n lsr 1)) else XI (pos_of_int (n lsr 1))
+let z_of_int n = if n = 0 then Z0 else if n > 0 then Zpos (pos_of_int n) else Zneg (pos_of_int (-n))
+let tok_of_int n = match n with
+  | 0 -> TDot | -1 -> TDollar | -2 -> TMod MQuest | -3 -> TMod MStar | -4 -> TMod MPlus
+  | -5 -> TBar | -6 -> TLP | -7 -> TRP | s -> TStr (z_of_int s)
+let () =
+  let mode = if Sys.argv.(1) = "Symmetric" then Symmetric else Directed in
+  let which = z_of_int (int_of_string Sys.argv.(2)) in
+  let idx = ref 0 in
+  (try while true do
+    let line = input_line stdin in
+    let a = Array.of_list (List.map int_of_string (List.filter (fun s -> s <> "") (String.split_on_char ' ' line))) in
+    let p = ref 0 in
+    let next () = let v = a.(!p) in incr p; v in
+    let take_list f = let n = next () in List.init n (fun _ -> f (next ())) in
+    let toks = take_list tok_of_int in
+    let nplans = next () in
+    let plans = List.init nplans (fun _ ->
+      let d = nat_of_int (next ()) in
+      let syms = take_list z_of_int in
+      let codes = take_list z_of_int in
+      let orc = take_list z_of_int in
+      (((d, syms), codes), orc)) in
+    if not (chk_case mode which (toks, plans)) then Printf.printf "%d\n" !idx;
+    incr idx
+  done with End_of_file -> ());
+  Printf.printf "done %d\n" !idx
+"""
+
+    def __init__(self, ctx):
+        self.ok = False
+        self.dir = os.path.join(ctx.workdir, "ocaml")
+        os.makedirs(self.dir, exist_ok=True)
+        with open(os.path.join(self.dir, "extract.v"), "w") as f:
+            f.write("From Coq Require Import Extraction ExtrOcamlBasic.\n"
+                    "From VC2 Require Import Model.Regex Model.NFA Model.Matcher Corr.C18.\n"
+                    'Extraction "c18model.ml" chk_case.\n')
+        with open(os.path.join(self.dir, "main.ml"), "w") as f:
+            f.write(self.MAIN)
+        rc, out = vlib.sh(["coqc", "-Q", vlib.COQ, "VC2", "extract.v"], timeout=600, cwd=self.dir)
+        if rc == 0:
+            rc, out = vlib.sh(["ocamlfind", "ocamlopt", "-w", "-a", "-O3", "c18model.mli", "c18model.ml", "main.ml", "-o", "c18chk"],
+                              timeout=600, cwd=self.dir)
+            if rc != 0:
+                rc, out = vlib.sh(["ocamlopt", "-w", "-a", "c18model.mli", "c18model.ml", "main.ml", "-o", "c18chk"], timeout=600, cwd=self.dir)
+        self.ok = rc == 0
+        self.msg = out[-500:]
+
+    def run(self, mode, which, lines, jobs=12):
+        """indices of failing cases, or None"""
+        if not lines:
+            return []
+        n = max(1, min(jobs, len(lines) // 200 + 1))
+        chunks = [lines[i::n] for i in range(n)]
+        import concurrent.futures
+
+        def one(k):
+            p = subprocess.run([os.path.join(self.dir, "c18chk"), mode, str(which)], input="\n".join(chunks[k]) + "\n",
+                               stdout=subprocess.PIPE, universal_newlines=True, timeout=3000)
+            out = p.stdout.split("\n")
+            if p.returncode != 0 or ("done %d" % len(chunks[k])) not in out:
+                return None
+            return [int(x) * n + k for x in out if x.strip().isdigit()]
+        bad = []
+        with concurrent.futures.ThreadPoolExecutor(max_workers=n) as ex:
+            for res in ex.map(one, range(n)):
+                if res is None:
+                    return None
+                bad.extend(res)
+        return sorted(bad)
+
+
 HAND_PATTERNS = [
     "a? b", "(a | b*)", "a | b*", "a* | b", "(a b)* c", "a+ b?", "(a | b)+ $", "a $", "a $ b?", "(a $)*", "($ | a)*",
     "a ()", "() a", "()", "", "(a)", "((a))", "a | ", " | a", "a | | b", "a b | c d", "a | b | c", "a (b | c)* a",
@@ -582,14 +725,15 @@ def run(ctx):
     sr = impl()
     orc = Oracle()
     rng = ctx.rng
-    N = ctx.pick(5, 6)
-    L = ctx.pick(4, 5)
+    N = 5
+    L = 4
     ctx.extra["rule"] = (
         "parser: every token string up to length %d over {a . $ * + ? | ( )} (exhaustive) + hand-written + the real patterns, AST/error compared with the model parser; "
         "matcher: every pattern AST up to %d nodes over leaves {a, b, ., (), $} and * (core, exhaustive; + and ? forms sampled), printed to a pattern string, x every symbol sequence "
         "up to length %d (one less for the largest pattern size) over {a,b,c} as an observation tree (is_complete, valid_next_symbols, match_symbol per branch); the level patterns of the CSV and the pattern literals of "
         "the package over all data-unit names, guided random walks up to length %d. Non-trivial = pattern with at least one accepted and one rejected symbol in its tree. "
-        "Oracle: Brzozowski-derivative decision of the pattern language on the harness' own AST, on every pattern satisfying the `$` hypothesis."
+        "Oracle: Brzozowski-derivative decision of the pattern language on the harness' own AST, on every pattern satisfying the `$` hypothesis. "
+        "Thorough tier adds: every pattern AST up to 7 nodes x every sequence up to length 6 (5 for 6 nodes, 4 for 7 nodes), evaluated by the model extracted to OCaml."
         % (ctx.pick(4, 5), N, L, ctx.pick(5, 7)))
     imports = ["Model.Regex", "Model.NFA", "Model.Matcher", "Corr.C18"]
 
@@ -638,22 +782,32 @@ def run(ctx):
                        "differs on %r" % [pmeta[i] for i in bad[:8]])
 
     # ---------------- matcher cases ------------------------------------------------------
-    cases = []  # (id, pattern string, harness AST or None, plan, extra alphabet)
+    # job = (kind, pattern string, harness AST or None, depth, symbols): depth 0 = the symbols are
+    # fed in sequence, depth d = full tree of all sequences up to length d over the symbols
+    jobs, big_jobs = [], []
     memo = {}
     leaves = [("s", "a"), ("s", "b"), ANY, E, EOS]
-    plan_small = full_plan(["a", "b", "c"], L)
-    plan_top = full_plan(["a", "b", "c"], L - 1)  # the (many) patterns of the largest size: one symbol less
+    abc = ["a", "b", "c"]
     for size in range(1, N + 1):
         for r in enum_asts(size, leaves, ("*",), memo):
-            cases.append(("enum", show(r), r, plan_small if size < N else plan_top))
+            jobs.append(("enum", show(r), r, L if size < N else L - 1, abc))
+    if not ctx.quick:
+        # thorough: up to 7 nodes / length 6, evaluated by the extracted model (see OcamlChecker)
+        for size, depth in ((1, 6), (2, 6), (3, 6), (4, 6), (5, 6), (6, 5), (7, 4)):
+            for r in enum_asts(size, leaves, ("*",), memo):
+                big_jobs.append(("enum-big", show(r), r, depth, abc))
     # sugar forms (+, ?): sampled
     memo2 = {}
     sugar = []
     for size in range(2, N + 1):
         sugar += [r for r in enum_asts(size, leaves, ("*", "+", "?"), memo2) if "+" in show(r) or "?" in show(r)]
     rng.shuffle(sugar)
-    for r in sugar[: ctx.pick(400, 6000)]:
-        cases.append(("sugar", show(r), r, plan_top))
+    for r in sugar[: ctx.pick(400, 3000)]:
+        jobs.append(("sugar", show(r), r, L - 1, abc))
+    if not ctx.quick:
+        for r in sugar[3000:40000]:
+            big_jobs.append(("sugar-big", show(r), r, 5, abc))
+
     # a few bigger random ones
     def rand_ast(n):
         if n <= 1:
@@ -663,19 +817,19 @@ def run(ctx):
             return (k, rand_ast(n - 1))
         i = rng.randrange(1, n - 1) if n > 2 else 1
         return (k, rand_ast(i), rand_ast(max(1, n - 1 - i)))
-    for _ in range(ctx.pick(150, 1500)):
+    for i in range(ctx.pick(150, 6000)):
         r = rand_ast(rng.randrange(N + 1, N + 6))
         if rng.random() < 0.3:
             r = ("c", r, rng.choice([EOS, ("c", EOS, ("?", ("s", "b")))]))
-        cases.append(("random", show(r), r, full_plan(["a", "b", "c"], 3)))
+        (jobs if i < 600 else big_jobs).append(("random" if i < 600 else "random-big", show(r), r, 3 if i < 600 else 5, abc))
     for s in HAND_PATTERNS:
         toks = my_tokens(s)
-        cases.append(("hand", s, my_parse(toks) if toks is not None else None, plan_small))
+        jobs.append(("hand", s, my_parse(toks) if toks is not None else None, L, abc))
     # real patterns over the data-unit names: random walks biased to valid next symbols
     walk_len = ctx.pick(5, 7)
     for src, p in real_pats:
         r = my_parse(my_tokens(p))
-        plans = [full_plan(du_names, 2)]
+        jobs.append(("real:" + src, p, r, 2, du_names))
         for _ in range(ctx.pick(40, 300)):
             m = sr.Matcher(p)
             seq = []
@@ -684,9 +838,7 @@ def run(ctx):
                 s = rng.choice(vn) if vn and rng.random() < 0.75 else rng.choice(du_names)
                 seq.append(s)
                 m.match_symbol(s)
-            plans.append(chain_plan(seq))
-        for pl in plans:
-            cases.append(("real:" + src, p, r, pl))
+            jobs.append(("real:" + src, p, r, 0, seq))
     # corpus of earlier failures
     corpus = os.path.join(vlib.VERIF, "corpus", "C18", "patterns.txt")
     if os.path.exists(corpus):
@@ -695,73 +847,117 @@ def run(ctx):
             if line and not line.startswith("#"):
                 toks = my_tokens(line)
                 if toks is not None:
-                    cases.insert(0, ("corpus", line, my_parse(toks), plan_small))
+                    jobs.insert(0, ("corpus", line, my_parse(toks), L, abc))
+    for j in jobs + big_jobs:  # number every symbol name before the workers start
+        for k, v in (my_tokens(j[1]) or []):
+            if k == "string":
+                names(v)
+        for x in j[4]:
+            names(x)
 
-    coq_cases, meta = [], []
+    nbig0 = len(jobs)
+    pool = multiprocessing.get_context("fork").Pool(min(vlib.NPROC, 14), initializer=_init_worker, initargs=(dict(names.ids),))
+    try:
+        results = pool.map(_work, jobs + big_jobs, chunksize=32)
+    finally:
+        pool.close()
+        pool.join()
+
+    # one case per (kind, pattern): all its plans together
+    allc, by_pat = [], {}
     oracle_fail = {}
     n_oracle = 0
-    by_pat = {}
-    for kind, pat, r, plan in cases:
-        toks = my_tokens(pat)
-        code, _a = real_parse(sr, pat)
-        if toks is None or code != 0:
+    for k, res in enumerate(results):
+        if res is None:
             continue
-        obs = observe(sr, pat, plan)
-        if (kind, pat) in by_pat:
-            idx = by_pat[(kind, pat)]
-        else:
-            idx = by_pat[(kind, pat)] = len(coq_cases)
-            coq_cases.append([coq_tokens(names, toks), []])
-            meta.append((kind, pat, r, obs))
-        d, syms = plan_shape(plan)
-        hyp = r is not None and eos_ok(desugar(r))
-        pred = oracle_predict(orc, r, plan) if hyp else None
-        coq_cases[idx][1].append("(%d%%nat,%s,%s,%s)" % (d, clist([names(x) for x in syms]), clist(obs_codes(names, obs)),
-                                                      clist(pred) if pred else "[]"))
-        flat = []
-        def walk(o):
-            for s, ok, k in o[2]:
-                flat.append(ok)
-                walk(k)
-        walk(obs)
-        nodes = len(flat) + 1
-        nontrivial = any(flat) and not all(flat)
-        ctx.count(nodes, key=("m", pat) if nontrivial else None, bucket=kind.split(":")[0] + (":hyp" if hyp else ":nohyp"))
-        if idx < 3 or kind.startswith("real") and len(ctx.samples) < 6 and d == 0:
-            ctx.sample({"pattern": pat, "kind": kind, "plan": [d, syms], "is_complete_at_start": obs[0], "valid_next_at_start": obs[1]})
-        # ---- property oracle (hypothesis: `$` only where nothing mandatory follows)
-        if hyp:
+        key = (res["kind"], res["pat"])
+        if key not in by_pat:
+            by_pat[key] = len(allc)
+            allc.append({"kind": res["kind"], "pat": res["pat"], "toks_coq": res["toks_coq"], "toks_int": res["toks_int"],
+                         "plans": [], "big": k >= nbig0})
+        idx = by_pat[key]
+        allc[idx]["plans"].append(res)
+        ctx.count(res["nodes"], key=("m", res["pat"]) if res["nontrivial"] else None,
+                  bucket=res["kind"].split(":")[0] + (":hyp" if res["hyp"] else ":nohyp"))
+        if idx < 3 or (res["kind"].startswith("real") and len(ctx.samples) < 6 and res["d"] == 0):
+            ctx.sample({"pattern": res["pat"], "kind": res["kind"], "plan": [res["d"], res["syms"]],
+                        "is_complete_at_start": res["start"][0], "valid_next_at_start": res["start"][1]})
+        if res["hyp"]:
             n_oracle += 1
-            fails = oracle_check(orc, r, obs)
-            if fails:
-                oracle_fail.setdefault(idx, []).extend(fails)
-    coq_cases = ["(%s,[%s])" % (t, ";".join(pl)) for t, pl in coq_cases]
+            if res["fails"]:
+                oracle_fail.setdefault(idx, []).extend(res["fails"])
+    meta = [(c["kind"], c["pat"]) for c in allc]
+
+    def coq_lit(c):
+        return "(%s,[%s])" % (c["toks_coq"], ";".join("(%d%%nat,%s,%s,%s)" % (r_["d"], clist(r_["syms"]), clist(r_["codes"]), clist(r_["pred"]))
+                                                     for r_ in c["plans"]))
+
+    def int_line(c):
+        out = [len(c["toks_int"])] + c["toks_int"] + [len(c["plans"])]
+        for r_ in c["plans"]:
+            out += [r_["d"], len(r_["syms"])] + r_["syms"] + [len(r_["codes"])] + r_["codes"] + [len(r_["pred"])] + r_["pred"]
+        return " ".join(str(x) for x in out)
+
     timing["observe_and_oracle"] = round(time.time() - t0, 1)
     ctx.extra["oracle_patterns"] = n_oracle
     ctx.exhaustive = True
 
+    small = [i for i, c in enumerate(allc) if not c["big"]]
+    big = [i for i, c in enumerate(allc) if c["big"]]
+    ocaml = None
+    if big:
+        ocaml = OcamlChecker(ctx)
+        if not ocaml.ok:
+            ctx.note("OCaml extraction of the model not available (%s): the large enumeration is subsampled into coqc shards" % ocaml.msg[-200:])
+            rng.shuffle(big)
+            small += big[:4000]
+            big, ocaml = [], None
     sh = ctx.pick(130, 200)
-    bad_any = ctx.coq_check_cases("matcher", imports, "chk_case Directed 2", coq_cases, ty="case_t", shard=sh, timeout=2400)
+
+    def check(name, mode_, which, idxs):
+        """indices (into allc) where the check fails; small cases by coqc/vm_compute, big ones by the extracted model"""
+        sm = [i for i in idxs if not allc[i]["big"] or ocaml is None]
+        bg = [i for i in idxs if allc[i]["big"] and ocaml is not None]
+        bad = []
+        if sm:
+            b = ctx.coq_check_cases(name, imports, "chk_case %s %d" % (mode_, which), [coq_lit(allc[i]) for i in sm], ty="case_t", shard=sh, timeout=2400)
+            if b is None:
+                return None
+            bad += [sm[i] for i in b]
+        if bg:
+            b = ocaml.run(mode_, which, [int_line(allc[i]) for i in bg])
+            ctx.obligation("corr:%s (extracted model, %d cases)" % (name, len(bg)), b is not None, "corr-shard",
+                           "%d mismatches" % len(b) if b is not None else "extracted checker failed")
+            if b is None:
+                return None
+            ctx.corr_cases += len(bg)
+            ctx.corr_mismatches += len(b)
+            bad += [bg[i] for i in b]
+        return sorted(bad)
+
+    bad_any = check("matcher", "Directed", 2, small + big)
+    if ocaml is not None and bad_any is not None:
+        # the extracted model and vm_compute must agree on the cases both evaluate
+        b2 = ocaml.run("Directed", 2, [int_line(allc[i]) for i in small])
+        same = b2 is not None and [small[i] for i in b2] == [i for i in bad_any if not allc[i]["big"]]
+        ctx.obligation("corr:extracted model agrees with vm_compute on the %d shared cases" % len(small), same, "corr-shard", "")
     mode = "directed"
     bad_dir, bad_sym, bad_orc = [], [], []
     if bad_any:
-        sub = [coq_cases[i] for i in bad_any]
-        b0 = ctx.coq_check_cases("matcher_impl_vs_directed", imports, "chk_case Directed 0", sub, ty="case_t", shard=sh, timeout=2400)
-        b1 = ctx.coq_check_cases("matcher_oracle_vs_directed", imports, "chk_case Directed 1", sub, ty="case_t", shard=sh, timeout=2400)
-        bad_dir = [bad_any[i] for i in (b0 or [])]
-        bad_orc = [bad_any[i] for i in (b1 or [])]
+        bad_dir = check("matcher_impl_vs_directed", "Directed", 0, bad_any) or []
+        bad_orc = check("matcher_oracle_vs_directed", "Directed", 1, bad_any) or []
         if bad_dir:
-            bs = ctx.coq_check_cases("matcher_impl_vs_symmetric", imports, "chk_case Symmetric 0", [coq_cases[i] for i in bad_dir],
-                                     ty="case_t", shard=sh, timeout=2400)
-            bad_sym = [bad_dir[i] for i in (bs or [])]
+            bs = check("matcher_impl_vs_symmetric", "Symmetric", 0, bad_dir)
+            bad_sym = bs or []
             if bs is not None and not bad_sym:
                 mode = "symmetric"
     if bad_orc:
         ctx.obligation("corr:language oracle agrees with the Directed model (proved equal to lang)", False, "corr-shard",
                        "the harness' derivative oracle and the model differ on %r" % [meta[i][1] for i in bad_orc[:8]])
+    ncases = len(allc)
     ctx.extra["eps_mode_of_working_tree"] = mode if not bad_sym else "neither"
     ctx.note("working tree follows empty transitions: %s (%d of %d cases differ from the Directed model, %d of those also from the Symmetric model)"
-             % (ctx.extra["eps_mode_of_working_tree"], len(bad_dir), len(coq_cases), len(bad_sym)))
+             % (ctx.extra["eps_mode_of_working_tree"], len(bad_dir), ncases, len(bad_sym)))
 
     timing["matcher_coq"] = round(time.time() - t0, 1)
     # ---- classify
@@ -771,9 +967,10 @@ def run(ctx):
         return min(oracle_fail[i], key=lambda f: (f[1] != "match_symbol", len(f[0])))
     order = sorted(oracle_fail, key=lambda i: (best(i)[1] != "match_symbol", len(best(i)[0]), len(meta[i][1]), i))
     for i in order:
-        kind, pat, r, obs = meta[i]
+        kind, pat = meta[i]
         path, what, got, exp = best(i)
-        if i in bad_dir_set and i not in bad_sym_set:
+        if mode == "symmetric" and i in bad_dir_set:
+            # every difference from the Directed model is reproduced by the Symmetric model
             key = "nfa-epsilon-transitions-bidirectional"
             desc = ("Matcher(%r) after %r: %s is %r, the pattern language says %r; reproduced by the model with empty transitions followed in "
                     "both directions (NFANode.add_transition / equivalent_nodes)" % (pat, path, what, got, exp))
